@@ -687,7 +687,7 @@ class NpSem:
             return scope.get(node.id)
         except KeyError:
             pass
-        if node.id in ("range", "len", "isinstance", "tuple", "list", "int", "float", "abs", "min", "max", "sum", "enumerate", "zip", "slice", "str", "any", "all", "sorted", "reversed", "bool", "round"):
+        if node.id in ("range", "len", "isinstance", "tuple", "list", "int", "float", "abs", "min", "max", "sum", "enumerate", "zip", "slice", "str", "any", "all", "sorted", "reversed", "bool", "round", "dict", "set", "getattr", "hasattr"):
             return node.id
         if node.id in ("None", "True", "False"):
             return {"None": None, "True": True, "False": False}[node.id]
@@ -967,6 +967,23 @@ class NpSem:
                 return list(reversed(list(args[0]._attrs["__iter__"]()) if isinstance(args[0], Stub) else list(args[0])))
             if f == "bool":
                 return bool(args[0])
+            if f == "dict":
+                return dict(*args, **kwargs)
+            if f == "set":
+                return set(*args)
+            if f in ("getattr", "hasattr"):
+                obj, nm = args[0], args[1]
+                if isinstance(obj, Stub):
+                    if f == "hasattr":
+                        return nm in obj._attrs
+                    if nm in obj._attrs:
+                        return obj._attrs[nm]
+                    if len(args) > 2:
+                        return args[2]
+                    raise Raised(f"AttributeError: {nm}")
+                if isinstance(obj, Opaque):
+                    return Opaque(f"{obj.name}.{nm}") if f == "getattr" else self.fail(node, "hasattr on an opaque value")
+                self.fail(node, f"{f} on {obj!r}")
             if f == "round":
                 from fractions import Fraction
 
@@ -1004,13 +1021,17 @@ class NpSem:
             kind = ("NoneType",)
         elif isinstance(obj, np.ndarray):
             kind = ("ndarray",)
-        elif isinstance(obj, (int, float, str, tuple, list, dict, sp.Basic)):
-            kind = (type(obj).__name__,)
+        elif isinstance(obj, (str, tuple, list)):
+            kind = (type(obj).__name__, "Sequence", "Iterable", "Collection")
+        elif isinstance(obj, dict):
+            kind = ("dict", "Mapping", "MutableMapping", "Iterable", "Collection")
+        elif isinstance(obj, (int, float, sp.Basic)):
+            kind = (type(obj).__name__, "Number")
         if kind is None:
             self.fail(node, f"isinstance on {obj!r}")
         for c in clss:
-            if isinstance(c, str) and c in ("int", "float", "str", "tuple", "list", "dict", "bool"):
-                if isinstance(obj, {"int": int, "float": float, "str": str, "tuple": tuple, "list": list, "dict": dict, "bool": bool}[c]) and not (c == "int" and isinstance(obj, bool)):
+            if isinstance(c, str) and c in ("int", "float", "str", "tuple", "list", "dict", "bool", "set"):
+                if isinstance(obj, {"int": int, "float": float, "str": str, "tuple": tuple, "list": list, "dict": dict, "bool": bool, "set": set}[c]) and not (c == "int" and isinstance(obj, bool)):
                     return True
                 continue
             if isinstance(c, KindRef):
